@@ -400,6 +400,25 @@ pub fn gen_sys(r: &mut Rng) -> String {
         }
         preface.reverse();
     }
+    // one in eight of the rest is an orphan: far from the end game a peer that never sent a bitfield (we keep it choked)
+    // announces a piece with Have, unchokes us, is asked for the piece - and is gone (or sends a corrupt block)
+    let orphan = !duel && !recall && np >= 11 && r.chance(1, 3);
+    if orphan {
+        let i = r.below(np as u64);
+        preface.push("a0".to_string());
+        preface.push(format!("f0:hs,{},{}", PLACEHOLDER, hex(&[0x41u8; 20])));
+        preface.push(format!("f0:hv,{}", i));
+        preface.push("f0:un".to_string());
+        if r.coin() {
+            preface.push("e0".to_string());
+        } else {
+            preface.push(format!("f0:pc,{},0,{}", i, hex(&r.bytes(plen.min(64)))));
+            if plen > 64 {
+                preface.push("e0".to_string());
+            }
+        }
+        preface.reverse();
+    }
     if recall {
         let bit = r.below(np as u64) as usize;
         let mut bytes = vec![0u8; (np + 7) / 8];
